@@ -71,7 +71,19 @@ def _domains(d, tier):
         doms.append((kind, list(map(float, sub))))
     # a shifted, fractional uniform grid
     doms.append(("uniform-array", [300.0 + 2.5 * k for k in range(d)]))
+    # the same kind of grids in SI metres (values and steps of order 1e-7 .. 1e-9) and a scalar step in metres
+    doms.append(("scalar", 1e-9))
+    small = [sub for sub in itertools.combinations(grid, d)]
+    for sub in (small[:: max(1, len(small) // 4)] + [small[-1]]):
+        diffs = np.diff(sub)
+        kind = "uniform-array/metres" if np.all(diffs == diffs[0]) else "nonuniform-array/metres"
+        doms.append((kind, [(300.0 + 2.5 * v) * 1e-9 for v in sub]))
     return doms
+
+
+def _dscale(dom):
+    """magnitude of the integration measure (comparison tolerances are relative to it)"""
+    return float(dom) if np.ndim(dom) == 0 else float(dom[-1] - dom[0])
 
 
 def _dense(shape, salt):
@@ -88,12 +100,12 @@ def _call(rec, fn, *a, **k):
         return None, e
 
 
-def _close(a, b):
+def _close(a, b, scale=1.0):
     a = np.asarray(a, dtype=float)
     b = np.asarray(b, dtype=float)
     if a.shape != b.shape:
         return False
-    return bool(np.all(np.abs(a - b) <= 1e-12 * (1.0 + np.abs(b))))
+    return bool(np.all(np.abs(a - b) <= 1e-12 * (scale + np.abs(b))))
 
 
 def run_unit(unit, rec):
@@ -122,6 +134,7 @@ def _run_capture(unit, rec, dreye):
     nf, ns = int(np.prod(fshape)), int(np.prod(sshape))
     shp = "F=%s S=%s" % (tuple(unit["f"]) + ("d",), tuple(unit["s"]) + ("d",))
     for dkind, dom in _domains(d, tier):
+        sc = _dscale(dom)
         for trapz in (True, False):
             if dkind != "scalar" and not trapz:
                 # array domains always use the trapezoid rule (documented); executed once, as trapz=True oracle
@@ -151,7 +164,7 @@ def _run_capture(unit, rec, dreye):
                 rec.violation("c", sig, "output shape %s, expected %s" % (np.shape(out), exp.shape), case)
                 rec.outcome("wrong-shape")
                 continue
-            if not _close(out, exp):
+            if not _close(out, exp, sc):
                 rec.violation("a", sig, "dense pair differs from the trapezoid oracle", case, observed=out, expected=exp,
                               script=_script_capture(F0, S0, dom, trapz))
             # exact rational self-check of the oracle on one entry (oracle vs oracle: internal)
@@ -181,7 +194,7 @@ def _run_capture(unit, rec, dreye):
                         rec.outcome("basis-nonzero")
                     else:
                         rec.outcome("basis-zero")
-                    if not _close(out[nz], exp[nz]):
+                    if not _close(out[nz], exp[nz], sc):
                         bad_a += 1
                         rec.violation("a", sig, "entry (signal i, filter j) of a basis pair differs from the trapezoid weight",
                                       dict(cfg=cfg, pair=[a, b]), observed=out, expected=exp,
@@ -206,7 +219,7 @@ def _run_capture(unit, rec, dreye):
                     rec.path()
                     out, exc = _call(rec, dreye.calculate_capture, F.reshape(fshape), Sb.reshape(sshape), **kw)
                     exp = O.capture_ref(F.reshape(fshape), Sb.reshape(sshape), **okw)
-                    if exc is not None or not _close(out, exp):
+                    if exc is not None or not _close(out, exp, sc):
                         rec.violation("d", dict(sig, arg="filters"), "capture is not linear in the filters (coefficients %s, %s)" % (ca, cb),
                                       dict(cfg=cfg, lin=["f", a1, a2, b, ca, cb]), observed=out, expected=exp)
             pairs_s = [(0, ns - 1), (0, min(1, ns - 1))]
@@ -220,7 +233,7 @@ def _run_capture(unit, rec, dreye):
                     rec.path()
                     out, exc = _call(rec, dreye.calculate_capture, Fa.reshape(fshape), S.reshape(sshape), **kw)
                     exp = O.capture_ref(Fa.reshape(fshape), S.reshape(sshape), **okw)
-                    if exc is not None or not _close(out, exp):
+                    if exc is not None or not _close(out, exp, sc):
                         rec.violation("d", dict(sig, arg="signals"), "capture is not linear in the signals (coefficients %s, %s)" % (ca, cb),
                                       dict(cfg=cfg, lin=["s", b1, b2, a, ca, cb]), observed=out, expected=exp)
             # -- scalar step == explicit domain 0, dx, 2dx ... --
@@ -228,7 +241,7 @@ def _run_capture(unit, rec, dreye):
                 rec.path()
                 o1, e1 = _call(rec, dreye.calculate_capture, F0, S0, domain=dom, trapz=True)
                 o2, e2 = _call(rec, dreye.calculate_capture, F0, S0, domain=np.arange(d) * dom)
-                if e1 is not None or e2 is not None or not _close(o1, o2):
+                if e1 is not None or e2 is not None or not _close(o1, o2, sc):
                     rec.violation("e", sig, "scalar step and explicit domain 0,dx,2dx.. disagree", dict(cfg=cfg, pair="dense-e"),
                                   observed=o1, expected=o2)
             if dkind == "scalar" and not trapz:
@@ -238,6 +251,7 @@ def _run_capture(unit, rec, dreye):
                             basis_pairs=nf * ns), cap=1)
     # oracle self-check (rational vs float weights) - internal, never a verdict on dreye
     for dkind, dom in _domains(d, tier)[:6]:
+        sc = _dscale(dom)
         y = _dense((d,), 5)
         if dkind == "scalar":
             ex = O.trapz_exact(y, dx=dom)
@@ -252,6 +266,7 @@ def _run_integral(unit, rec, dreye):
     d, tier = unit["d"], unit["tier"]
     layouts = [((d,), -1), ((d,), 0), ((2, d), -1), ((2, d), 1), ((d, 2), 0), ((2, d, 3), 1), ((d, 2, 3), 0), ((2, 3, d), -1), ((2, 3, d), 2)]
     for dkind, dom in _domains(d, tier):
+        sc = _dscale(dom)
         w = O.trapz_weights(d, dx=dom) if dkind == "scalar" else O.trapz_weights(d, x=dom)
         for shape, axis in layouts:
             for keep in (False, True):
@@ -278,10 +293,10 @@ def _run_integral(unit, rec, dreye):
                         break
                     if np.any(exp != 0):
                         rec.distinct(cfg + (name,))
-                    rec.outcome("integral-ok" if _close(out, exp) else "integral-bad")
+                    rec.outcome("integral-ok" if _close(out, exp, sc) else "integral-bad")
                     if np.shape(out) != exp.shape:
                         rec.violation("g", dict(sig, kind="shape"), "integral shape %s expected %s" % (np.shape(out), exp.shape), case)
-                    elif not _close(out, exp):
+                    elif not _close(out, exp, sc):
                         rec.violation("g", sig, "integral differs from the trapezoid oracle", case, observed=out, expected=exp)
     rec.sample(dict(api="integral", d=d, layouts=len(layouts)), cap=1)
 
@@ -289,6 +304,7 @@ def _run_integral(unit, rec, dreye):
 def _run_estimator(unit, rec, dreye):
     d, tier = unit["d"], unit["tier"]
     for dkind, dom in _domains(d, tier):
+        sc = _dscale(dom)
         for m in (1, 2, 3):
             filters = _dense((m, d), 7)
             sig = dict(api="ReceptorEstimator.capture", domain=dkind, n_filters=m)
@@ -318,7 +334,7 @@ def _run_estimator(unit, rec, dreye):
                     rec.outcome("exception")
                     break
                 rec.distinct(cfg + (name,))
-                ok = _close(out, exp)
+                ok = _close(out, exp, sc)
                 rec.outcome("estimator-ok" if ok else "estimator-bad")
                 if not ok:
                     rec.violation("h", sig, "ReceptorEstimator.capture differs from the trapezoid oracle on its own domain", case, observed=out, expected=exp)
